@@ -650,5 +650,8 @@ def run(ck):
     for fn_ in ('register_get', 'register_setx'):
         callback_guard(R, 'C01.f', fn_)
     from .common import reevaluate
-    reevaluate(ck, 'C01.g', 'c04', lambda r, k: r == 'C04.a' and k.startswith('flags:'),
-               'the always-fail constraint is lifted only while REG_TF_DURING_INIT is set: nothing but register_init sets that flag, and register_init clears it on every exit')
+    ck.rule('C01.i', 'typed set / get reach the register as register_init linked it (area, offset = address - base): the register lies wholly inside that area, so offset + size stays inside the area\'s memory (containment predicate and wrap freedom of C04.d / C04.g, area records of C04.e re-evaluated)')
+    reevaluate(ck, lambda r, k: 'C01.g' if r == 'C04.a' else 'C01.i', 'c04',
+               lambda r, k: (r == 'C04.a' and k.startswith('flags:')) or r in ('C04.d', 'C04.g', 'C04.e'),
+               {'C01.g': 'the always-fail constraint is lifted only while REG_TF_DURING_INIT is set: nothing but register_init sets that flag, and register_init clears it on every exit',
+                'C01.i': 'set / get write and read (area, offset, size of the type): init admits a register only wholly inside one area and links it with offset = address - base'})
